@@ -571,7 +571,7 @@ func runRearm(e *env, bin string, senv []string) {
 
 // Run is the C14 check.
 func Run(ctx *core.Ctx) {
-	ctx.Rule = "PRNG-generated sequences over 3-5 objects (+ a permanent anchor) of one collection each: per object a script of SET EX / SET / EXPIRE / PERSIST / DEL(+recreate) / FSET / JSET, randomly interleaved, optionally one RENAME of the collection (ids recreated under the old name) or an inside fence with a subscriber; TTLs 0.3-3 s; a PRNG 0-150 ms sleep before every step (phase vs the 100 ms sweeper); reads (GET, TTL, EXISTS, SCAN IDS/COUNT, WITHIN IDS/COUNT, NEARBY, SEARCH for strings, CHANS/HOOKS) after steps, ~200 ms before each deadline, polled after it, at cancelled deadline + 1 s, and after t_ack+T+5 s. Same for channels/hooks with EX; bulk: 50-500 objects with one TTL set in one pipeline plus survivors; follower: FOLLOW issued ~0.6 s before the leader's deadlines; huge lifetimes (4e9 s .. 1.8e308 s through SET EX, EXPIRE, SETCHAN EX): if acknowledged, still there after a dozen sweeper passes. After all scenarios of a server: sweeper del/delchan/delhook entries matched in appendonly.aof, SIGTERM + restart on the same directory, presence re-read. evaluations = judged observations (presence reads, TTL replies, counts, log entries, fence messages, follower and restart reads). non-trivial = a sequence in which >= 1 object expired and >= 1 object was seen alive more than 1 s after its predecessor's cancelled deadline; distinct key = flavor + set of per-object op shapes"
+	ctx.Rule = "PRNG-generated sequences over 3-5 objects (+ a permanent anchor) of one collection each: per object a script of SET EX / SET / EXPIRE / PERSIST / DEL(+recreate) / FSET / JSET, randomly interleaved, optionally one RENAME of the collection (ids recreated under the old name) or an inside fence with a subscriber; TTLs 0.3-3 s; a PRNG 0-150 ms sleep before every step (phase vs the 100 ms sweeper); reads (GET, TTL, EXISTS, SCAN IDS/COUNT, WITHIN IDS/COUNT, NEARBY, SEARCH for strings, CHANS/HOOKS) after steps, ~200 ms before each deadline, polled after it, at cancelled deadline + 1 s, and after t_ack+T+5 s. Same for channels/hooks with EX; bulk: 50-500 objects with one TTL set in one pipeline plus survivors; follower: FOLLOW issued ~0.6 s before the leader's deadlines; a restarted follower promoted with FOLLOW no one must expire what it is given afterwards; huge lifetimes (4e9 s .. 1.8e308 s through SET EX, EXPIRE, SETCHAN EX): if acknowledged, still there after a dozen sweeper passes. After all scenarios of a server: sweeper del/delchan/delhook entries matched in appendonly.aof, SIGTERM + restart on the same directory, presence re-read. evaluations = judged observations (presence reads, TTL replies, counts, log entries, fence messages, follower and restart reads). non-trivial = a sequence in which >= 1 object expired and >= 1 object was seen alive more than 1 s after its predecessor's cancelled deadline; distinct key = flavor + set of per-object op shapes"
 	ctx.Assumptions = []string{
 		"client and servers share one machine clock; no wall-clock step during the run (the server compares wall-clock nanoseconds)",
 		"never-early judged against the client's send time minus a 20 ms guard band; eventual judged 5 s after ack+T and only when PING answered within 100 ms before and after the read; straddling reads are not judged",
@@ -630,6 +630,8 @@ func Run(ctx *core.Ctx) {
 		if round == 0 {
 			wg.Add(1)
 			go func() { defer wg.Done(); runHuge(e, bins[kind], envs[kind]) }()
+			wg.Add(1)
+			go func() { defer wg.Done(); runPromoted(e, bins[kind], envs[kind]) }()
 		}
 		if round == 0 && os.Getenv("C14_REARM") != "0" {
 			wg.Add(1)
